@@ -37,6 +37,12 @@
 //!       (`s2`) went onto the wire, i.e. while the responder waits for the acknowledgement inside `send_with` — between
 //!       the `Resume1MIC` check and the fabric look-up of `try_handle_sigma1_resume`, resp. between Sigma2 and the
 //!       fabric re-read of `handle_casesigma3`. The outcome carries the word `gapped` when the removal ran.
+//!       `gap=i`: the state changes run on the CONTROLLER (its fabric of this handshake) while its initiator waits for the
+//!       acknowledgement of SigmaFinished (word `igapped`); the controller's fabric is gone afterwards - last op of a case.
+//!       `gap=w`: the same state changes run as soon as the device holds a RESERVED session loaded with `Case { fab }` -
+//!       `try_handle_sigma1_resume` is suspended between `update_with_state` and `session.complete()`, waiting for
+//!       SigmaFinished. Needs a schedule under which Sigma2_Resume is acknowledged on its own (first SigmaFinished lost,
+//!       the retransmitted Sigma2_Resume is answered with a stand-alone acknowledgement): `sched=ddx`.
 //!   `rmfab`      the device removes its fabric the way the RemoveFabric handler does (`Fabrics::remove`,
 //!                `Sessions::remove_for_fabric`, `ResumableSessions::remove_for_fabric`); `=> removed dc=<cache>`
 //!   `addfab root=<rec> dnoc=<rec> dicac=<rec|-> [dkey=<k>]`   the device installs a fabric (it re-uses the index)
@@ -533,6 +539,7 @@ fn handshake<C: Crypto>(crypto: &C, n: &Nodes, mutation: Option<Mutation>, sched
     // responder's processing of it
     let raced = std::cell::Cell::new(false);
     let gapped = std::cell::Cell::new(false);
+    let igapped = std::cell::Cell::new(false);
     let polls = std::cell::Cell::new(0u32);
     let saboteur = core::future::poll_fn(|_cx| {
         // `race = k`: at the k-th poll after the initiator's final status report went onto the wire
@@ -540,7 +547,42 @@ fn handshake<C: Crypto>(crypto: &C, n: &Nodes, mutation: Option<Mutation>, sched
             polls.set(polls.get() + 1);
         }
         let _ = &ack_seen;
-        let gap_now = gap_seen.get() && !gapped.get();
+        // `gap=w`: state-based - the device holds a RESERVED session that already carries `Case { fab_idx }` of the
+        // fabric, i.e. `try_handle_sigma1_resume` has loaded the reserved session (`update_with_state`) and is suspended
+        // in `recv_fetch` waiting for SigmaFinished (the acknowledgement of Sigma2_Resume arrived on its own)
+        let waiting = gap.as_deref() == Some("w")
+            && !gapped.get()
+            && n.dev_fab.get().map_or(false, |idx| {
+                n.dev.with_state(|st| {
+                    st.verif_sessions().iter().any(|s| {
+                        let (reserved, _, _, _) = s.verif_view();
+                        reserved && matches!(s.get_session_mode(), SessionMode::Case { fab_idx, .. } if *fab_idx == idx)
+                    })
+                })
+            });
+        // `gap=i`: the same state changes on the CONTROLLER (the initiator), as soon as the session of this handshake is
+        // live there and its SigmaFinished is on the wire: `finalize_sigma2_resume` is suspended in
+        // `complete_with_status`, waiting for the acknowledgement of SigmaFinished, with the cache rotation still ahead
+        if gap.as_deref() == Some("i") && !igapped.get() && st_seen.get() {
+            let live = n.ctl.with_state(|st| {
+                st.verif_sessions().iter().any(|s| {
+                    let (reserved, _, _, _) = s.verif_view();
+                    !reserved
+                        && !before_c.contains(&s.get_local_sess_id())
+                        && matches!(s.get_session_mode(), SessionMode::Case { fab_idx, .. } if *fab_idx == ctl_fab)
+                })
+            });
+            if live {
+                igapped.set(true);
+                n.ctl.with_state(|st| {
+                    if st.fabrics.remove(ctl_fab).is_ok() {
+                        st.verif_sessions_mut().remove_for_fabric(ctl_fab, None);
+                        st.resumption.remove_for_fabric(ctl_fab);
+                    }
+                });
+            }
+        }
+        let gap_now = (gap_seen.get() || waiting) && !gapped.get();
         if gap_now {
             gapped.set(true);
         }
@@ -612,6 +654,7 @@ fn handshake<C: Crypto>(crypto: &C, n: &Nodes, mutation: Option<Mutation>, sched
         .unwrap_or_else(|| "-".into());
     let storm = if raced.get() { format!("{} raced", storm) } else { storm.to_string() };
     let storm = if gapped.get() { format!("{} gapped", storm) } else { storm };
+    let storm = if igapped.get() { format!("{} igapped", storm) } else { storm };
     format!(
         "t={} ctl={} dev={} keys={} init={}{} via={} rid={} cc={} dc={}",
         ts,
@@ -912,6 +955,13 @@ fn run_case(out: &mut Out, case: &Case) {
                     out.stat(&format!("out_{}_{}", k, cls), 1);
                 }
             }
+        }
+        if op.contains("gap=i") {
+            out.stat(if v.split_whitespace().any(|w| w == "igapped") { "gap_i_hit" } else { "gap_i_missed" }, 1);
+        }
+        if op.contains("gap=w") {
+            // did the schedule open the window (removal while the responder awaited SigmaFinished)?
+            out.stat(if v.split_whitespace().any(|w| w == "gapped") { "gap_w_hit" } else { "gap_w_missed" }, 1);
         }
         out.op(op, &v);
     }
@@ -1259,6 +1309,40 @@ pub fn gen(a: &Args) -> String {
         ops.push(format!("addfab root={} dnoc={} dicac={}", c.0.text(), d.2.text(), o(&d.1)));
         ops.push("again".to_string());
         ops.push("again".to_string());
+        emit(&mut out, ops);
+    }
+
+    // ---- 2d'. the same state changes while the responder is suspended in `recv_fetch`, waiting for SigmaFinished with the
+    // reserved session already loaded (`gap=w`; finding C07-resume-in-flight-record-resurrected): the first SigmaFinished is
+    // lost, the retransmitted Sigma2_Resume is acknowledged on its own, the retransmitted SigmaFinished arrives `l<ms>` later
+    let n_w = if a.thorough { 16 } else { 4 };
+    for i in 0..n_w {
+        let mut cr = r.fork();
+        let (_, c, d) = base(&mut cr, false);
+        let o = |x: &Option<Rec>| x.as_ref().map(|r| r.text()).unwrap_or_else(|| "-".into());
+        out.stat("kind_remove_while_awaiting_sigmafinished", 1);
+        let mut ops = vec![hs_line(&c.0, &c, &d, None, "")];
+        if i % 2 == 1 {
+            ops.push("again".to_string());
+        }
+        ops.push(format!("again sched=d.d.x.d.d.l{} gap=w", cr.range(20, 3000)));
+        ops.push(format!("addfab root={} dnoc={} dicac={}", c.0.text(), d.2.text(), o(&d.1)));
+        ops.push("again".to_string());
+        ops.push("again".to_string());
+        emit(&mut out, ops);
+    }
+    // the initiator's side of it (`gap=i`): the controller's fabric is removed while `finalize_sigma2_resume` awaits the
+    // acknowledgement of SigmaFinished (delayed by `l<ms>`); the controller's fabric is gone afterwards, the case ends
+    let n_i = if a.thorough { 8 } else { 2 };
+    for i in 0..n_i {
+        let mut cr = r.fork();
+        let (_, c, d) = base(&mut cr, false);
+        out.stat("kind_remove_while_awaiting_sigmafinished_ack", 1);
+        let mut ops = vec![hs_line(&c.0, &c, &d, None, "")];
+        if i % 2 == 1 {
+            ops.push("again".to_string());
+        }
+        ops.push(format!("again sched=d.d.d.l{} gap=i", cr.range(20, 250)));
         emit(&mut out, ops);
     }
 
